@@ -32,4 +32,28 @@ def jOptNat : Option Nat → Json | none => Json.null | some s => toJson s
 def jObj (kvs : List (String × Json)) : Json := Json.mkObj kvs
 def jErr (msg : String) : Json := jObj [("err", Json.str msg)]
 
+
+/-- Line protocol: one JSON object per input line (`{"op": "<Cxx>.<name>", ...}` or just `"<name>"`), one JSON value per
+output line.  `handle` receives the operation name (without the property prefix) and the whole object. -/
+partial def mainLoop (handle : String → Json → Json) : IO Unit := do
+  let inp ← IO.getStdin
+  let out ← IO.getStdout
+  let rec go : IO Unit := do
+    let line ← inp.getLine
+    if line.isEmpty then return ()
+    let t := line.trimAscii.toString
+    if t.isEmpty then go else
+    let res := match Json.parse t with
+      | .error e => jErr s!"parse: {e}"
+      | .ok j =>
+        let op := strF j "op"
+        let name := match op.splitOn "." with
+          | [_, o] => o
+          | _ => op
+        handle name j
+    out.putStrLn res.compress
+    go
+  go
+  out.flush
+
 end Drv
